@@ -801,6 +801,8 @@ fn judge_history(out: &mut CaseOut, table: &[Ovr], map: &Map, roa: bool, text: &
     let mut erased: Mask = 0; // non-modifiers that were overridden since their press
     let mut prev_removed: Mask = 0;
     let mut prev_added: Mask = 0;
+    // the specification had exactly one acceptable result in the last tick (no tie between entries)
+    let mut prev_unique = true;
     let mut prev_km: Mask = 0; // keys kanata held in the last judged tick
     let mut reported = false;
     let mut reported_rep = false;
@@ -857,7 +859,11 @@ fn judge_history(out: &mut CaseOut, table: &[Ovr], map: &Map, roa: bool, text: &
                 if let (Some(i), true, None) = (i, settled, &rep_dev) {
                     // every output any override of the output key can have (kanata chooses among them)
                     let possible: Mask = table.iter().filter(|o| o.in_key == i).fold(0, |m, o| m | mods_to_mask(o.out_mods) | (1 << o.out_key));
-                    if !is_mod(i) && prev_removed & (1 << i) != 0 {
+                    if !is_mod(i) && prev_removed & (1 << i) != 0 && !prev_unique {
+                        // two entries tie: which keys are replaced / added depends on kanata's choice,
+                        // which the OS set alone does not reveal
+                        out.inc("pipeline_repeats_not_judged_tie_between_entries");
+                    } else if !is_mod(i) && prev_removed & (1 << i) != 0 {
                         // the key this physical key outputs is the non-modifier of an active override
                         out.inc("pipeline_repeats_during_active_override");
                         if remapped {
@@ -1098,6 +1104,7 @@ fn judge_history(out: &mut CaseOut, table: &[Ovr], map: &Map, roa: bool, text: &
             }
             prev_removed = removed;
             prev_added = added;
+            prev_unique = acc.len() == 1;
             prev_km = km;
         }
     }
